@@ -282,6 +282,21 @@ class SchedulingSolver(BaseModelWithJson):
             # sort consume/feed times in asc order
             tasks_start_unload = [t._start for t in buffer._unloading_tasks]
             tasks_end_load = [t._end for t in buffer._loading_tasks]
+            if isinstance(buffer, NonConcurrentBuffer):
+                # an optional task that both unloads and loads the buffer: if it is not
+                # scheduled its start and end are the same instant in the past, which is
+                # not an access conflict. Move its (void) loading to another unique instant.
+                loading_times = {}
+                for t in buffer._loading_tasks:
+                    if t.optional and t in buffer._unloading_tasks:
+                        loading_times[t] = z3.If(
+                            t._scheduled,
+                            t._end,
+                            self.problem.get_unique_negative_integer(),
+                        )
+                    else:
+                        loading_times[t] = t._end
+                tasks_end_load = list(loading_times.values())
 
             # sort_no_duplicates seems to be better in terms of performance
             # but not suitable for concurrent access to a buffer.
@@ -394,7 +409,7 @@ class SchedulingSolver(BaseModelWithJson):
                         buffer_mapping
                         == z3.Store(
                             buffer_mapping,
-                            t._end,
+                            loading_times[t],
                             _scheduled_quantity(t, +buffer._loading_tasks[t]),
                         )
                     )
